@@ -1,6 +1,13 @@
 """Per-property leg table used by ./check (kept apart so MANIFEST generation can import it)."""
 
 
+def legs_with_mock(run, qshards, tshards):
+    def f(tier):
+        return [{"pkg": "props", "run": run, "shards": qshards if tier == "quick" else tshards},
+                {"pkg": "mockreg", "run": "^TestMock$", "shards": 4 if tier == "quick" else 16}]
+    return f
+
+
 def legs_simple(pkg, run, qshards, tshards, **kw):
     def f(tier):
         d = {"pkg": pkg, "run": run, "shards": qshards if tier == "quick" else tshards}
@@ -16,12 +23,14 @@ COMMON_ASSUME = [
 
 CHECKS = {
     "C01": {
-        "legs": legs_simple("props", "^TestC01$", 14, 16),
+        "legs": legs_with_mock("^TestC01$", 12, 16),
         "rule": "rapid: object (cert 70% / CRL 20% / OCSP 10%: corpus, 0-4 DER-tree edits, openers re-date/re-scope, built CRLs/OCSP) x registry "
                 "(nil, global, Filter(generated), Filter of Filter) x configuration (none, empty, example, unrelated, well-typed, ill-typed); plus the whole "
                 "corpus under the default registry (enumerated). Oracle: result-set invariants. Non-trivial = parseable, >=1 result above pass, and bytes edited "
                 "or registry filtered or configuration given; distinct by hash(DER, filters, config).",
-        "assumptions": COMMON_ASSUME + ["'hang' = a single Lint*Ex call exceeding 120 s"],
+        "assumptions": COMMON_ASSUME + ["'hang' = a single Lint*Ex call exceeding 120 s",
+                                         "mock leg: 90 instrumented lints (15 sources x 3 kinds x plain/configurable) registered through the public Register* API in a test binary of their own; "
+                                         "generated scripts make all 16 flag combinations and all 7 statuses occur"],
     },
     "C02": {
         "legs": legs_simple("props", "^TestC02$", 14, 16),
@@ -31,7 +40,7 @@ CHECKS = {
         "assumptions": COMMON_ASSUME,
     },
     "C03": {
-        "legs": legs_simple("props", "^TestC03$", 14, 16),
+        "legs": legs_with_mock("^TestC03$", 12, 16),
         "rule": "enumerated boundary sweep: every lint with a dated boundary x K home objects (2 quick / 12 thorough) x {eff,ineff} x {-1s,0,+1s} x time forms "
                 "(UTCTime Z, GeneralizedTime Z; +0100 / -0500 offsets in thorough) with the parsed dates additionally converted to zones +14/-12/+0530; rapid: generated "
                 "objects re-dated to registry dates +-{0,1s,1d} or uniform. Every lint of the kind is judged on every object against the integer window model. "
@@ -39,7 +48,7 @@ CHECKS = {
         "assumptions": COMMON_ASSUME + ["boundaries outside 1951..2048 (zlint's year-0 'ZeroDate') cannot be approached from both sides in UTCTime and are skipped in the sweep"],
     },
     "C04": {
-        "legs": legs_simple("props", "^TestC04$", 14, 16),
+        "legs": legs_with_mock("^TestC04$", 12, 16),
         "rule": "enumerated single-feature scope matrix ({no EKU, each of 8 EKUs} x {no policy, each of 18 scope OIDs, anyPolicy, unrelated} x 4 e-mail-SAN variants on the 3 "
                 "corpus certificates that are home to most TLS/SMIME/CS lints) + corpus + rapid objects with openers, filters and configurations. Oracle: framework result == "
                 "reference lifecycle (scope model, fresh instance, MaybeConfigure, CheckApplies, integer window, Execute) for every lint, status and details. "
